@@ -139,6 +139,24 @@ def run(ctx, rep):
     if len(farm) == 1:
         order = [n['method'] for n in find_all(S.expanded('src/compiler.rs', 'Compiler', farm[0]['body']), lambda n: n.get('k') == 'mcall') if n['method'] in ('define', 'new_context')]
         ok = order[:2] == ['define', 'new_context']
+    if not ok:
+        # the same order read from the shape analysis (helpers and closures followed)
+        from rules import csa_run as _cr
+        fa = [a for a in _cr.analyse(ctx)['arms'] if a['method'] == 'compile_expression' and a['trace'].startswith('Expr::Function')]
+        okc = bool(fa)
+        for a in fa:
+            ops = a.get('symops') or []
+            kinds = [o[0] for o in ops]
+            if 'new_context' not in kinds:
+                okc = False
+                continue
+            i_new = kinds.index('new_context')
+            named = [i for i, o in enumerate(ops) if o[0] == 'define' and o[2] and str(o[2]).endswith('.name')]
+            if any(i > i_new for i in named):
+                okc = False
+        # ... and some path declares the name at all
+        okc = okc and any(any(o[0] == 'define' and o[2] and str(o[2]).endswith('.name') for o in (a.get('symops') or [])) for a in fa)
+        ok = okc
     rep.ob(ok, 'R12.3', 'compiler::Compiler::compile_expression', 'Expr::Function', 'define(name) precedes new_context() (the body can call itself)', 'src/compiler.rs')
     check_frame_arith(ctx, rep, 'R12.4')
     rep.rule('R12.7', 'deep recursion ends at a limit of the machine, not of the host: the number of call frames is bounded by a test with an error edge')
